@@ -111,6 +111,7 @@ class ServerWorld:
 
     # -- background tasks (threaded server, sequential worlds) -------------
     def _start_task(self, target, *args, **kwargs):
+        self.bg_started = getattr(self, 'bg_started', 0) + 1
         t = DeferredTask(self, target, args, kwargs)
         self.tasks.append(t)
         return t
